@@ -6,7 +6,7 @@
 # Prints a JSON summary line starting with SEED-RESULT.
 set -u
 NAME="$1"; PATCH="$2"; DEMO="$3"; DEST="$4"; CMD="$5"; FULL="${6:-}"
-S=/root/work/seedwt
+S=${SEEDWT:-/root/work/seedwt}   # one scratch worktree per lane when several confirmations run side by side
 export CARGO_NET_OFFLINE=true CARGO_TARGET_DIR=$S/target
 if [ ! -d $S/repo ]; then mkdir -p $S; git -C /repo worktree add --detach $S/repo HEAD >/dev/null 2>&1 || exit 2; fi
 cd $S/repo || exit 2
@@ -40,10 +40,12 @@ PY
 )
     # the same with the feature set the harness uses (dnssec, sqlite, recursor): failing tests must be
     # within the known network-dependent set
+    if [ "${SKIP_FEATSUITE:-0}" != "1" ]; then
     /verif/tools/featsuite.sh $S/repo $S/feat.txt >/dev/null 2>&1
     feat_new=$(sort -u $S/feat.txt | comm -23 - /verif/tools/featsuite-expected-failures.txt | wc -l)
     sort -u $S/feat.txt | comm -23 - /verif/tools/featsuite-expected-failures.txt | head -5 | sed 's/^/  feature-suite-regression: /' >&2
     new_fail=$((new_fail + feat_new))
+    fi
 fi
 git checkout -q -- .; git clean -fdq -e target
 echo "SEED-RESULT {\"seed\":\"$NAME\",\"applies\":true,\"demo_rc_without_patch\":$rc_clean,\"demo_rc_with_patch\":$rc_patched,\"suite_stable_tests_not_passing_with_patch\":$new_fail}"
